@@ -743,7 +743,7 @@ func vRunScenario(t *testing.T, sc map[string]any) map[string]any {
 					continue
 				}
 				s.mu.Lock()
-				s.events = append(s.events, vEvent{Seq: len(s.events), T: s.now(), G: id, Kind: "issue", Args: []any{id, op, vHexOrEmpty(c["name"])}})
+				s.events = append(s.events, vEvent{Seq: len(s.events), T: s.now(), G: id, Kind: "issue", Args: []any{id, op, vHexOrEmpty(c["name"]), vInt(c["deploy_timeout"]), vInt(c["drain_timeout"]), vInt(c["fail_after"])}})
 				s.mu.Unlock()
 				if vBool(c["async"]) {
 					s.wg.Add(1)
